@@ -757,5 +757,5 @@ MANIFEST = dict(
           "reference (Rodrigues, cofactor inverse, standard slerp) checks every wrapper within a conditioned tolerance."),
     note=("Trusted: Lean kernel + propext/Classical.choice/Quot.sound; clang-14 AST + tools/cpp2lean.py (validated each run by the "
           "bit-exact correspondence); exact-field arithmetic instead of IEEE rounding ('within tolerance' is observed, not proved); "
-          "slerp between its end points and orthogonal() (a loop, outside the translator's subset) are covered by the reference oracle only; double-precision instantiations (incl. the mixed-precision overloads they alone use) are covered by the reference oracle only."),
+          "slerp between its end points and orthogonal() (a loop, outside the translator's subset) are covered by the reference oracle only; double-precision instantiations (incl. the mixed-precision overloads they alone use; tolerance 1e-13 x condition) and the compound assignments (*=, /=, +=, -= for float and double, also x *= x) are harness-only wrappers covered by the reference oracle only."),
     technique="Lean 4 proof (ring/linear_combination identities) over a model regenerated from the C++ AST + bit-exact differential check + reference oracle")
